@@ -600,6 +600,9 @@ impl<K: Ord + Clone, V: Val<A> + CvRDT, A: Ord + Hash + Clone> CvRDT for Map<K, 
             //@ let ghost idx = it.index@;
             //@ let ghost oe = entry;
             //@ proof { pre.lemma_wf(); assert(other.entries@.contains_key(ovs[idx].0)); assert(key == ovs[idx].0 && entry == ovs[idx].1); assert(other.has(key) && other.ec(key) == oe.clock@ && other.val(key) == oe.val); assert(nz(oe.clock@) && oe.clock@ != SMap::<A, u64>::empty() && oe.val.cm_inv()); }
+            //@ let ghost mut w_m1: Option<V> = None;
+            //@ let ghost mut w_c: Option<VClock<A>> = None;
+            //@ let ghost mut w_j: SMap<A, u64> = SMap::<A, u64>::empty();
             if let Some(our_entry) = self.entries.get_mut(&key) {
                 // SUBTLE: this entry is present in both maps, BUT that doesn't mean we
                 // shouldn't drop it!
@@ -625,7 +628,7 @@ impl<K: Ord + Clone, V: Val<A> + CvRDT, A: Ord + Hash + Clone> CvRDT for Map<K, 
                     //@ let ghost jn = information_that_was_deleted@;
                     information_that_was_deleted.reset_remove(&common);
                     our_entry.val.reset_remove(&information_that_was_deleted);
-                    //@ proof { assert(V::cv_post(&se.val, &oe.val, &m1)); assert(is_join(jn, oe.clock@, se.clock@)); assert(information_that_was_deleted@ == vsub(jn, common@)); assert(V::rr_post(&m1, &information_that_was_deleted, &our_entry.val)); }
+                    //@ proof { assert(V::cv_post(&se.val, &oe.val, &m1)); assert(is_join(jn, oe.clock@, se.clock@)); assert(information_that_was_deleted@ == vsub(jn, common@)); assert(V::rr_post(&m1, &information_that_was_deleted, &our_entry.val)); w_m1 = Some(m1); w_c = Some(information_that_was_deleted); w_j = jn; }
                     our_entry.clock = common;
                 }
             } else {
@@ -646,11 +649,11 @@ impl<K: Ord + Clone, V: Val<A> + CvRDT, A: Ord + Hash + Clone> CvRDT for Map<K, 
                     let mut information_we_deleted = self.clock.clone();
                     information_we_deleted.reset_remove(&entry.clock);
                     entry.val.reset_remove(&information_we_deleted);
-                    //@ proof { assert(information_we_deleted@ == vsub(self.clock@, entry.clock@)); assert(V::rr_post(&oe.val, &information_we_deleted, &entry.val)); }
+                    //@ proof { assert(information_we_deleted@ == vsub(self.clock@, entry.clock@)); assert(V::rr_post(&oe.val, &information_we_deleted, &entry.val)); w_c = Some(information_we_deleted); }
                     self.entries.insert(key, entry);
                 }
             }
-            //@ proof { lemma_mmerge_pass2_step(*old(self), other, s1, pre, *self, ovs, idx); }
+            //@ proof { lemma_mmerge_pass2_step(*old(self), other, s1, pre, *self, ovs, idx, w_m1, w_c, w_j); }
         }
         //@ let ghost s2 = *self;
         //@ proof { lemma_mmerge_pass2_done(*old(self), other, s1, s2, ovs); }
@@ -1415,7 +1418,7 @@ proof fn lemma_mmerge_pass1<K: Ord, V: Val<A>, A: Ord + Hash>(old_: Map<K, V, A>
     }
 }
 
-proof fn lemma_mmerge_pass2_step<K: Ord, V: Val<A> + CvRDT, A: Ord + Hash>(old_: Map<K, V, A>, other: Map<K, V, A>, s1: Map<K, V, A>, pre: Map<K, V, A>, post: Map<K, V, A>, ovs: Seq<(K, Entry<V, A>)>, idx: int)
+proof fn lemma_mmerge_pass2_step<K: Ord, V: Val<A> + CvRDT, A: Ord + Hash>(old_: Map<K, V, A>, other: Map<K, V, A>, s1: Map<K, V, A>, pre: Map<K, V, A>, post: Map<K, V, A>, ovs: Seq<(K, Entry<V, A>)>, idx: int, w_m1: Option<V>, w_c: Option<VClock<A>>, w_j: SMap<A, u64>)
     requires
         0 <= idx < ovs.len(), pre.wf(), old_.wf(), other.wf(), s1.wf(),
         forall|i: int| 0 <= i < ovs.len() ==> other.entries@.contains_key((#[trigger] ovs[i]).0) && other.entries@[ovs[i].0] == ovs[i].1,
@@ -1431,13 +1434,15 @@ proof fn lemma_mmerge_pass2_step<K: Ord, V: Val<A> + CvRDT, A: Ord + Hash>(old_:
         forall|m: K| #![trigger post.entries@.contains_key(m)] m != ovs[idx].0 ==> (post.entries@.contains_key(m) == pre.entries@.contains_key(m) && (post.entries@.contains_key(m) ==> post.entries@[m] == pre.entries@[m])),
         forall|a: A| #[trigger] cnt(post.ec(ovs[idx].0), a) == mrg(cnt(pre.ec(ovs[idx].0), a), cnt(ovs[idx].1.clock@, a), cnt(old_.cl(), a), cnt(other.cl(), a)),
         post.entries@.contains_key(ovs[idx].0) ==> nz(post.entries@[ovs[idx].0].clock@) && post.entries@[ovs[idx].0].clock@ != SMap::<A, u64>::empty() && post.entries@[ovs[idx].0].val.cm_inv(),
-        // value of the visited key, if it survives
+        // value of the visited key, if it survives: the intermediate value / clocks of the loop body are passed as ghost witnesses
+        // (w_m1: the merged value, w_c: the clock the value was reset with, w_j: the join of the two entry clocks), so that the
+        // solver does not have to find them again at the join point of the branches
         post.entries@.contains_key(ovs[idx].0) ==> (
             if pre.entries@.contains_key(ovs[idx].0) {
-                exists|m1: V, c: VClock<A>, j: SMap<A, u64>| #[trigger] V::cv_post(&pre.entries@[ovs[idx].0].val, &ovs[idx].1.val, &m1) && #[trigger] is_join(j, ovs[idx].1.clock@, pre.entries@[ovs[idx].0].clock@)
-                    && c@ == vsub(j, post.entries@[ovs[idx].0].clock@) && #[trigger] V::rr_post(&m1, &c, &post.entries@[ovs[idx].0].val)
+                w_m1 is Some && w_c is Some && V::cv_post(&pre.entries@[ovs[idx].0].val, &ovs[idx].1.val, &w_m1->0) && is_join(w_j, ovs[idx].1.clock@, pre.entries@[ovs[idx].0].clock@)
+                    && w_c->0@ == vsub(w_j, post.entries@[ovs[idx].0].clock@) && V::rr_post(&w_m1->0, &w_c->0, &post.entries@[ovs[idx].0].val)
             } else {
-                exists|c: VClock<A>| c@ == vsub(old_.cl(), post.entries@[ovs[idx].0].clock@) && #[trigger] V::rr_post(&ovs[idx].1.val, &c, &post.entries@[ovs[idx].0].val)
+                w_c is Some && w_c->0@ == vsub(old_.cl(), post.entries@[ovs[idx].0].clock@) && V::rr_post(&ovs[idx].1.val, &w_c->0, &post.entries@[ovs[idx].0].val)
             }),
     ensures
         post.wf(),
@@ -1506,13 +1511,12 @@ proof fn lemma_mmerge_pass2_step<K: Ord, V: Val<A> + CvRDT, A: Ord + Hash>(old_:
                     pre.lemma_wf(); old_.lemma_wf();
                     lemma_cnt_ext(pre.ec(m), old_.ec(m));
                 }
-                let (m1, c, j) = choose|m1: V, c: VClock<A>, j: SMap<A, u64>| #[trigger] V::cv_post(&pre.entries@[me].val, &ovs[idx].1.val, &m1) && #[trigger] is_join(j, ovs[idx].1.clock@, pre.entries@[me].clock@)
-                    && c@ == vsub(j, post.entries@[me].clock@) && #[trigger] V::rr_post(&m1, &c, &post.entries@[me].val);
+                let (m1, c, j) = (w_m1->0, w_c->0, w_j);
                 assert(V::cv_post(&old_.val(m), &other.val(m), &m1) && is_join(j, other.ec(m), old_.ec(m)) && c@ == vsub(j, post.ec(m)) && V::rr_post(&m1, &c, &post.val(m)));
             } else {
                 assert(!pre.has(m));
                 assert(!old_.has(m));
-                let c = choose|c: VClock<A>| c@ == vsub(old_.cl(), post.entries@[me].clock@) && #[trigger] V::rr_post(&ovs[idx].1.val, &c, &post.entries@[me].val);
+                let c = w_c->0;
                 assert(c@ == vsub(old_.cl(), post.ec(m)) && V::rr_post(&other.val(m), &c, &post.val(m)));
             }
         } else {
